@@ -216,6 +216,16 @@ theorem rep_spawn_P_sim (h : s.src = 0) :
   simp only [hm, Bool.false_eq_true, if_false, nfnTok]
   exact Rep.cons (by decide) (by decide) (rep_blocks s.par)
 
+/-- what the reader loop of a merged source is given: its working state (Abaco only) -/
+theorem rep_spawn_P_merged (hm : s.merged = true) :
+    Rep ((mkSpec s.par).spawnPay tP) (fun c i s' => s.src = 1 ∧ c = 0 ∧ i = 0 ∧ s' = 0) := by
+  show Rep (spawnPayOf s.par tP) _
+  have hm' : s.par.merged = true := hm
+  rw [spawnPayOf_2 _ _ (show clsOf tP = 2 from rfl)]
+  simp only [hm', if_true]
+  exact ((Rep.one (c := 0) (i := 0) (s := 0) (by decide) (by decide)).ite (s.par.src == 1)).congr (fun c i s' => by
+    simp only [OneS, beq_iff_eq, par_src])
+
 /-- a critical section of the frame state of an Abaco source -/
 theorem HT.fl {p : Par} {P : TS} (h : p.src = 1) (e : Ev) (he : e = .wr vNfn ∨ e = .rd vNfn) :
     HT (mkSpec p) kids t P [.lock oFl, .wr vEtq, e, .unlock oFl] (fun c i s => P c i s ∧ ¬ FlS p.src c i s) := by
@@ -248,12 +258,18 @@ theorem typedP (hsrc : s.src ≤ 2) : HT (mkSpec s.par) s.kids tP EmptyS s.progP
         exact HT.wrv1 (c := 4) _ (by decide) rfl (by tokarith)
       · exact (HT.send (rep_chan_nb_sim s hm b) (by toksub)).post (by toksub)
     · simp only [h, BEq.rfl, if_true]; exact HT.close0 rfl
-  · -- Abaco
-    refine HT.seq (Q := EmptyS) (HT.seq (Q := EmptyS) (HT.seq (Q := EmptyS) HT.start0 ?_) (HT.recvC0 _)) ?_
-    · apply HT.range_const; intro b _
+  · -- Abaco: the reader loop owns its working state
+    have hr := rep_spawn_P_merged s (merged_of_ne (by omega))
+    refine HT.seq (Q := EmptyS) (HT.seq (Q := EmptyS) (HT.seq (Q := OneS 0 0 0)
+      ((HT.start hr).post (by toksub)) ?_) (HT.recvC0 _)) ?_
+    · refine (HT.range_const (P := OneS 0 0 0) _ _ ?_).post (by toksub)
+      intro b _
       simp only [h, Nat.reduceBEq, Bool.false_eq_true, if_false, BEq.rfl, if_true]
-      exact HT.seq (a := [.lock oFl, .wr vEtq, .rd vNfn, .unlock oFl]) (b := [.send oBufc])
-        ((HT.fl (p := s.par) h _ (Or.inr rfl)).post (by toksub)) (HT.send0 (chanPay_oBufc _))
+      refine HT.seq (a := [.lock oFl, .wr vEtq, .rd vNfn, .unlock oFl]) (b := [.wr vRloc, .rd vRloc, .send oBufc])
+        (Q := OneS 0 0 0) ((HT.fl (p := s.par) h _ (Or.inr rfl)).post (by toksub)) ?_
+      exact HT.cons (HT.wrv1 (c := 0) 0 (by decide) rfl (by tokarith))
+        (HT.cons (HT.rdv (c := 0) 0 0 (by decide) (by decide) (Or.inl rfl) (by tokarith))
+          (HT.send0 (chanPay_oBufc _)))
     · simp only [h, Nat.reduceBEq, Bool.false_eq_true, if_false]; exact HT.close0 rfl
   · -- Lancero
     refine HT.seq (Q := EmptyS) (HT.seq (Q := EmptyS) (HT.seq (Q := EmptyS) HT.start0 ?_) (HT.recvC0 _)) ?_
